@@ -29,6 +29,7 @@ type retState struct {
 	vals []Value
 	pos  token.Pos
 	tag  string // source text of the return statement (names postcondition obligations)
+	nd   int    // number of defer statements executed before this return (-1: all)
 }
 
 func (e *Engine) execBlock(st *State, stmts []ast.Stmt, cx *Ctx) *State {
@@ -668,7 +669,7 @@ func (e *Engine) execReturn(st *State, n *ast.ReturnStmt, cx *Ctx) *State {
 	}
 	var tb strings.Builder
 	printNode(&tb, e.prog.fset, n)
-	cx.returns = append(cx.returns, &retState{st: st, vals: vals, pos: n.Pos(), tag: strings.Join(strings.Fields(tb.String()), " ")})
+	cx.returns = append(cx.returns, &retState{st: st, vals: vals, pos: n.Pos(), tag: strings.Join(strings.Fields(tb.String()), " "), nd: len(cx.defers)})
 	return nil
 }
 
